@@ -278,6 +278,15 @@ pub fn run(cx: &Cx) -> Acc {
     let n = cx.tier.pick(1u64, 12u64);
     acc.merge(par_proptest(cx, "random", 400_000 * n, case_strategy, |c, acc| check(c, acc)));
     acc.merge(par_proptest(cx, "many-ranges", 6_000 * n, many_ranges_strategy, |c, acc| check(c, acc)));
+    // C06's multipart generator (decimal-width boundaries, entities of ~2^64 bytes with a range
+    // covering nearly everything: the region where the multipart length overflows u64).
+    acc.merge(par_proptest(
+        cx,
+        "multipart-and-near-overflow",
+        30_000 * n,
+        || crate::props::c06::case_strategy().prop_map(|c| Case { ent: c.ent, req: c.req, malformed: 0 }),
+        |c, acc| check(c, acc),
+    ));
     acc
 }
 
